@@ -145,6 +145,8 @@ func failCode(text string) int {
 		return 10
 	case strings.HasPrefix(text, "can't enter ") && strings.Contains(text, " of type "):
 		return 11
+	case text == "can't resume run in voice flow without call":
+		return 12
 	}
 	return -1
 }
